@@ -16,11 +16,13 @@
 namespace sim {
 
 // ---------------------------------------------------------------- small helpers
+// products saturate at SIZE_MAX: "more cells than can be counted"
 inline size_t volume(const std::vector<size_t> &ext)
 {
     size_t v = 1;
     for (auto e : ext)
-        v *= e;
+        if (__builtin_mul_overflow(v, e, &v))
+            return (size_t)-1;
     return v;
 }
 inline uint64_t pow2_ceil(uint64_t v)
@@ -49,7 +51,8 @@ inline size_t storage_len(const StackDesc &d, const std::vector<size_t> &ext)
         mx = std::max(mx, e);
     uint64_t side = pow2_ceil(mx), n = 1;
     for (int i = 0; i < d.N; ++i)
-        n *= side;
+        if (__builtin_mul_overflow(n, side, &n))
+            return (size_t)-1;
     return n;
 }
 
